@@ -302,6 +302,13 @@ impl<const K: u8> From<i32> for PK<K> {
         from_lit(n as i8)
     }
 }
+pub const G_FROM8: u8 = 7; // produced by From<u8> (a suffixed literal)
+impl<const K: u8> From<u8> for PK<K> {
+    fn from(n: u8) -> Self {
+        log_push(format!("[\"from\",\"own\",{}]", n));
+        PK { s: 3, f: 0, v: n as i8, g: G_FROM8 }
+    }
+}
 impl<const K: u8> From<&str> for PK<K> {
     fn from(n: &str) -> Self {
         from_lit(n.parse().unwrap_or(-1))
@@ -373,6 +380,11 @@ pub fn pexpr<const K: u8>(n: i8) -> PK<K> {
 /// fingerprints of natural-typed fields
 pub trait Fp {
     fn finger(&self) -> String;
+}
+impl Fp for u8 {
+    fn finger(&self) -> String {
+        format!("[\"nat\",0,{},0]", self)
+    }
 }
 impl Fp for i32 {
     fn finger(&self) -> String {
